@@ -16,6 +16,7 @@ mod c13;
 mod c19;
 mod c11;
 mod c08;
+mod c05;
 mod c09;
 mod c10;
 mod c07;
@@ -43,6 +44,8 @@ fn main() {
         "c19" => c19::main(rest),
         "c11" => c11::main(rest),
         "c08" => c08::main(rest),
+        "c05" => c05::main05(rest),
+        "c06" => c05::main06(rest),
         "c09" => c09::main(rest),
         "c10" => c10::main(rest),
         "c07" => c07::main(rest),
